@@ -186,6 +186,35 @@ class Interp:
                     stack.append([d[1] for d in self._decisions[:i]] + [alt])
         return paths
 
+    def run_program(self, program, store=None):
+        """enumerate all decision paths of `program(interp)`, a checker-side driver that interprets several
+        functions in sequence on the shared abstract store (e.g. a series of parser actions)"""
+        import copy
+
+        paths = []
+        stack = [[]]
+        while stack:
+            prefix = stack.pop()
+            self.store = copy.deepcopy(store or {})
+            self.path = Path()
+            self._prefix = prefix
+            self._decisions = []
+            self._memo = {}
+            try:
+                v = program(self)
+                self.path.result = ("return", v)
+            except Raised as r:
+                self.path.result = ("raise", r.typ)
+            self.path.final_store = self.store
+            paths.append(self.path)
+            if len(paths) > self.max_paths:
+                raise Undecidable("too many paths in program")
+            for i in range(len(prefix), len(self._decisions)):
+                _, idx, n = self._decisions[i]
+                for alt in range(idx + 1, n):
+                    stack.append([d[1] for d in self._decisions[:i]] + [alt])
+        return paths
+
     def _run_once(self, fi, args, store, selfkey, prefix):
         import copy
 
@@ -199,6 +228,7 @@ class Interp:
             self.path.result = ("return", v)
         except Raised as r:
             self.path.result = ("raise", r.typ)
+        self.path.final_store = self.store
         return self.path
 
     def choose(self, key, domain, memo=True):
@@ -731,6 +761,11 @@ class Interp:
         # builtins on concrete values
         if recv is None and meth in _BUILTINS and meth not in frame:
             if meth == "isinstance":
+                bt = {"list": list, "int": int, "str": str, "dict": dict, "tuple": tuple, "float": float, "bool": bool}
+                if len(args) == 2 and not isinstance(args[0], (Residual, Obj)):
+                    ts = args[1] if isinstance(args[1], (list, tuple)) else [args[1]]
+                    if all(isinstance(t, Residual) and t.text in bt for t in ts):
+                        return isinstance(args[0], tuple(bt[t.text] for t in ts))
                 if self.isinstance_oracle is not None:
                     return self.isinstance_oracle(self, args, e)
                 return Residual(f"isinstance({', '.join(txt(a) for a in args)})")
